@@ -14,7 +14,7 @@ CONSTANT Emit
 (* pm = how the price is unavailable: the TWA record is flagged inactive, or there is no record at all *)
 PriceModes == {"na", "inactive", "missing"}
 OwnCellsAll == {[m |-> "own", msg |-> r.id, holder |-> h, signer |-> s, amt |-> a, scope |-> sc] :
-                  r \in OwnerRows, h \in Holders, s \in Signers, a \in {"na", "small", "whole", "over"}, sc \in {"home", "alt", "decoy"}}
+                  r \in OwnerRows, h \in Holders, s \in Signers, a \in {"na", "zero", "small", "whole", "over"}, sc \in {"home", "alt", "decoy"}}
 OwnCells  == {c \in OwnCellsAll : c.amt \in AmountsOf(Row(c.msg)) /\ c.scope \in ScopesOf(Row(c.msg))}
 (* des = the contract the statement designates for the variant (tells the harness which cell is the non-vacuity reference) *)
 PrivCells == {[m |-> "priv", v |-> x.v, chain |-> c, sender |-> s, des |-> Designated(x.cls)] : x \in Variants, c \in Chains, s \in Senders}
